@@ -76,6 +76,11 @@ CHECKS = {
         "note": "Trusted: Lean kernel; yaml.v3 decoding; Documented transcribed from README/docs by hand; listeners/TLS files not exercised.",
         "technique": "Lean 4 proof (rule list vs declarative constraints) + differential correspondence",
     },
+    "C20": {
+        "text": "Lean theorems over the pool model: Get never returns a connection idle longer than idle_timeout (takeFresh_spec, get_fresh), a connection handed out is no longer idle in that pool (get_exclusive), every pool holds at most max_idle idle connections after every operation (idle_bounded), Shutdown closes everything retained and afterwards nothing is ever retained again - a late Put closes the connection (shutdown_closes_all, down_forever); every ResponseWriter wrapper passes Hijack on (writer facts regenerated from the source). Tied to the code by differential pool histories with fake connections under the virtual clock, an independent holder/idle bookkeeping oracle, and real WebSocket sessions through 9 plugin chains on real sockets.",
+        "note": "Trusted: Lean kernel; sequential pool histories (concurrent Put/Shutdown is exercised under -race in C12); the byte relay of an upgraded connection is httputil.ReverseProxy's (stdlib), validated by the sessions only.",
+        "technique": "Lean 4 proof (list invariants of the LIFO pool) + regenerated facts + differential correspondence",
+    },
 }
 
 NOT_APPLICABLE = {}
